@@ -30,6 +30,8 @@ def check(model, R, tier):
     from sa import deriv
     deriv.check_deriv(model, R, 'C02', ['tanh', 'sigmoid', 'mse_loss'])
     check_bn_mode(model, R)
+    from sa.rules_defn import check_deriv_x
+    check_deriv_x(model, R, 'C02')
     check_poolpair(model, R)
     check_layers(model, R, ops)
     return dict(
